@@ -668,8 +668,11 @@ def run_case(case):
                 bump('faults_fired', uf.fired)
                 sig_faults.append('flaky')
                 uf.fired = 0
-            if out == ['interrupt']:
-                continue        # no claim about the interrupted call itself
+            if out == ['interrupt'] or fired == 'interrupt':
+                # no claim about the interrupted call itself (an interrupt
+                # raised inside a callback of C code may even be swallowed
+                # there and leave a wrong value behind)
+                continue
             v = judge(seq, target, out, exp, st, 'eval')
             if v is not None:
                 viol = v
